@@ -92,6 +92,14 @@ Theorem C15_enu_is_ned_swapped : forall xp yp zp lp la glat glon x y z,
 Proof. intros xp yp zp lp la glat glon x y z. split; [exact (enu_swaps_ned xp yp zp lp la glat glon)|exact (frame_swap x y z)]. Qed.
 Print Assumptions C15_enu_is_ned_swapped.
 
+(* observed, recorded: in the ENU frame the angles are computed from the swapped components, so the inclination is negated
+   (the frame is part of the question, so this is not a violation of C15; a change of this behaviour breaks this theorem) *)
+Theorem C15_enu_inclination_negated : forall xp yp zp lp la glat glon ln le,
+  C15_elements_NED_R xp yp zp lp la glat glon = Val ln -> C15_elements_ENU_R xp yp zp lp la glat glon = Val le ->
+  0 < nth 3 ln 0 -> nth 5 le 0 = - nth 5 ln 0.
+Proof. intros xp yp zp lp la glat glon ln le. exact (enu_inclination_negated xp yp zp lp la glat glon ln le). Qed.
+Print Assumptions C15_enu_inclination_negated.
+
 (* lon_pm180_equal.  Longitude enters only through sin/cos(m*lon*pi/180); at +180 and -180 these are the same numbers *)
 Theorem C15_lon_pm180_equal : forall lat h lon,
   C15_lon_harmonics_R lat 180 h = C15_lon_harmonics_R lat (-180) h /\
